@@ -168,8 +168,9 @@ theorem all_resumed (c : Cfg) (u : U) (hstop : u.sw.paused = true ∨ u.phase = 
     let u' := (onReq c u .cont).1
     (u.phase = .running → u'.sw.paused = false ∧ u'.is.paused = false ∧ Act.kill .cont ∈ (onReq c u .cont).2) ∧
     (∀ w, u.phase = .terminating w → u'.sw.paused = false ∧ u'.gs.paused = false ∧ u'.ws.paused = false ∧ Act.kill .cont ∈ (onReq c u .cont).2) ∧
-    (u.phase = .delay → u'.ds.paused = false ∧ u'.ws.paused = false) := by
-  refine ⟨?_, ?_, ?_⟩
+    (u.phase = .delay → u'.ds.paused = false ∧ u'.ws.paused = false) ∧
+    (u.phase = .draining → u'.sw.paused = false ∧ u'.lsPaused = false) := by
+  refine ⟨?_, ?_, ?_, ?_⟩
   · intro hph
     rcases hstop with hs | hs
     · simp [onReq, hph, hs]
@@ -185,10 +186,13 @@ theorem all_resumed (c : Cfg) (u : U) (hstop : u.sw.paused = true ∨ u.phase = 
     · rename_i hp
       have hp' : u.ds.paused = false := by simpa using hp
       exact ⟨hp', by rw [← hd.1]; exact hp'⟩
+  · intro hph; simp [onReq, hph]
 
 /-- **Time spent stopped is excluded from every clock**: while the unit is stopped (its stopwatch and
     the timer of its phase paused) the passage of any amount of time changes neither the reported
-    duration nor the slow-timeout, grace-period or retry-delay timers, and nothing fires. -/
+    duration nor the slow-timeout, grace-period, retry-delay or leak timers, and nothing fires — in every phase that waits:
+    running, being terminated, waiting out a retry delay, and draining the handles of an exited process (the last after the
+    repair of F12: before it, a stop while draining was charged to the test's duration and to the leak timeout). -/
 theorem stopped_time_excluded (c : Cfg) (u : U) (dt : Nat) :
     (u.phase = .running → u.sw.paused = true → u.is.paused = true →
       (advance c u dt).2 = [] ∧ (advance c u dt).1.sw.active = u.sw.active ∧ (advance c u dt).1.is.remaining = u.is.remaining) ∧
@@ -196,14 +200,19 @@ theorem stopped_time_excluded (c : Cfg) (u : U) (dt : Nat) :
       (advance c u dt).2 = [] ∧ (advance c u dt).1.sw.active = u.sw.active ∧ (advance c u dt).1.gs.remaining = u.gs.remaining ∧
         (advance c u dt).1.ws.active = u.ws.active) ∧
     (u.phase = .delay → u.ds.paused = true → u.ws.paused = true →
-      (advance c u dt).2 = [] ∧ (advance c u dt).1.ds.remaining = u.ds.remaining ∧ (advance c u dt).1.ws.active = u.ws.active) := by
-  refine ⟨?_, ?_, ?_⟩
+      (advance c u dt).2 = [] ∧ (advance c u dt).1.ds.remaining = u.ds.remaining ∧ (advance c u dt).1.ws.active = u.ws.active) ∧
+    (u.phase = .draining → u.sw.paused = true → u.lsPaused = true →
+      (advance c u dt).2 = [] ∧ (advance c u dt).1.sw.active = u.sw.active ∧ (advance c u dt).1.ls = u.ls ∧
+        (advance c u dt).1.phase = .draining) := by
+  refine ⟨?_, ?_, ?_, ?_⟩
   · intro hph h1 h2
     by_cases hto : u.timedOut = true <;> simp [advance, nextDue, hph, Timer.due, h2, hto, elapse, Watch.tick, Timer.tick, h1]
   · intro w hph h1 h2 h3
     simp [advance, nextDue, hph, Timer.due, h2, elapse, Watch.tick, Timer.tick, h1, h3]
   · intro hph h1 h2
     simp [advance, nextDue, hph, Timer.due, h1, elapse, Watch.tick, Timer.tick, h2]
+  · intro hph h1 h2
+    simp [advance, nextDue, hph, h2, elapse, Watch.tick, h1]
 
 /-- … and while running, they advance by exactly the time that passes (up to the next expiry) -/
 theorem running_time_counted (c : Cfg) (u : U) (dt : Nat) (hph : u.phase = .running) (hto : u.timedOut = false)
